@@ -39,12 +39,36 @@ def _is_children_of_param(o) -> bool:
 SUBSCRIPT_EXEMPT = [
     ("flowmark.formats.flowmark_markdown:CustomFencedCode.match", "0", lambda org: bool(org) and all(_is_groups_unpack(o, 1) for o in org),
      "group 2 of marko's FencedCode.pattern is `{3,}`: at least three characters"),
-    ("flowmark.formats.flowmark_markdown:MarkdownNormalizer._render_code", "0", lambda org: bool(org) and all(_is_children_of_param(o) for o in org),
+    ("<code-block renderers>", "0", lambda org: bool(org) and all(_is_children_of_param(o) for o in org),
      "marko's FencedCode / CodeBlock (and CustomFencedCode.__init__) always store exactly one RawText child"),
 ]
-# ... the same site when the shared code renderer is written out in the three render methods that use it
-for _m in ("render_fenced_code", "render_code_block", "render_custom_fenced_code"):
-    SUBSCRIPT_EXEMPT.append((f"flowmark.formats.flowmark_markdown:MarkdownNormalizer.{_m}",) + SUBSCRIPT_EXEMPT[1][1:])
+_CODE_RENDERERS = tuple(f"flowmark.formats.flowmark_markdown:MarkdownNormalizer.{m}" for m in ("render_fenced_code", "render_code_block", "render_custom_fenced_code"))
+
+
+def _exempt_applies(prog, q: str, fi: FuncInfo) -> bool:
+    """`<code-block renderers>`: the three code-block render methods and the private code they share (helpers whose every
+    caller is one of them) - whatever that helper is called."""
+    if q != "<code-block renderers>":
+        return q == fi.qual
+    if fi.qual in _CODE_RENDERERS:
+        return True
+    from .common import callers_index
+
+    idx = callers_index(prog)
+    seen: set[str] = set()
+    work = [fi.qual]
+    while work:
+        x = work.pop()
+        if x in seen:
+            continue
+        seen.add(x)
+        if x in _CODE_RENDERERS:
+            continue
+        callers = idx.get(x, set())
+        if not callers or x not in prog.repo.functions or not prog.repo.functions[x].name.startswith("_"):
+            return False
+        work.extend(callers)
+    return True
 
 
 def format_scope(ctx: Ctx) -> dict[str, FuncInfo]:
@@ -409,7 +433,7 @@ def check_subscripts(ctx: Ctx) -> None:
             node0 = flow.node_of(sub)
             exempt = None
             for q, idx_txt, pred, reason in SUBSCRIPT_EXEMPT:
-                if q == fi.qual and norm(sub.slice) == idx_txt and node0 is not None and pred(origins(prog, fi, base, node0)):
+                if _exempt_applies(prog, q, fi) and norm(sub.slice) == idx_txt and node0 is not None and pred(origins(prog, fi, base, node0)):
                     exempt = reason
             if exempt is not None:
                 ctx.ob("R-TERM-index", okey, True, "exempt: " + exempt, where(fi, sub))
@@ -417,7 +441,12 @@ def check_subscripts(ctx: Ctx) -> None:
             # a parameter typed as a fixed-size tuple
             if isinstance(base, ast.Name) and base.id in fi.params:
                 ann = next((a.annotation for a in fi.node.args.args if a.arg == base.id), None)
-                if ann is not None and norm(ann).startswith("tuple["):
+                if isinstance(ann, ast.Name):
+                    # a module-level alias of the tuple type (`_Parts: TypeAlias = tuple[str, str, int]`)
+                    al = prog.repo.lookup(ann.id, fi.module, fi)
+                    if hasattr(al, "assigns") and getattr(al, "value", None) is not None:
+                        ann = al.value
+                if ann is not None and norm(ann).startswith(("tuple[", "Tuple[", "typing.Tuple[")) and "..." not in norm(ann):
                     ctx.ob("R-TERM-index", okey, True, "index into a fixed-size tuple parameter", where(fi, sub))
                     continue
             # str.split(sep) never returns an empty list
